@@ -15,14 +15,27 @@ missing = [h for h in subjects if h not in listed]
 known = ["| key | property | what fails |", "|---|---|---|"]
 for k in kf["known"]:
     known.append("| %s | %s | %s |" % (k["key"], k["property"], k["what"].replace("|", "/")))
-seeded = ["| id | targets | caught by (tier) | what it needs to manifest |", "|---|---|---|---|"]
-for d in sorted(glob.glob(os.path.join(HERE, "seeded", "C*"))):
+seeded = ["| id | breaks | caught by | what it needs to manifest |", "|---|---|---|---|"]
+for d in sorted(glob.glob(os.path.join(HERE, "seeded", "[CF]*"))):
     mp = os.path.join(d, "meta.json")
     if not os.path.exists(mp):
         continue
     m = json.load(open(mp))
-    by = "; ".join("%s: %s" % (k, ", ".join(sorted({c.replace("clause=", "").split(" mech=")[0] for c in v["clauses"]}))[:3 * 40]) for k, v in m.get("checks", {}).items() if v["exit"] == 1) or "MISSED"
-    seeded.append("| %s | %s | %s (%s) | %s |" % (os.path.basename(d), m["property"], by, m.get("tier"), (m.get("needs_to_manifest") or "")[:170].replace("\n", " ").replace("|", "/")))
+    caught = m.get("caught_by")
+    if caught is None:
+        by = "(not evaluated yet)"
+    elif not caught:
+        by = "MISSED"
+    else:
+        clauses = []
+        for k, v in (m.get("checks") or {}).items():
+            if v.get("exit") == 1:
+                clauses += [c.replace("clause=", "").split(" mech=")[0] for c in v.get("clauses", [])[:2]]
+        by = ", ".join(caught) + (": " + ", ".join(sorted(set(clauses))[:3]) if clauses else "")
+    conf = m.get("confirmed_by_me") or {}
+    ok = conf.get("patch_applies") and conf.get("demo_on_clean_tree_rc") == 0 and conf.get("demo_with_change_rc") not in (0, None) and conf.get("baseline_suite_unchanged")
+    needs = (m.get("needs") or m.get("needs_to_manifest") or "")
+    seeded.append("| %s | %s | %s%s | %s |" % (os.path.basename(d), m["property"], by, "" if ok or caught is None else " (NOT CONFIRMED: see meta.json)", str(needs)[:200].replace("\n", " ").replace("|", "/")))
 
 
 def put(text, name, lines):
